@@ -17,6 +17,7 @@ _recvClientHello / _recvChallengeResponse / _recvServerHello.
 """
 import io
 import sys
+import signal
 import struct
 import itertools
 import tracemalloc
@@ -38,13 +39,27 @@ MEM_BASE = 1024 * 1024  # covers the interpreter stack of a recursion that the r
 ALLOWED = (bool, int, float, str, bytes, type(None), list, dict, set, tuple)
 
 
+class BudgetExceeded(BaseException):
+    """raised from inside the meter / watchdog to abort a decode that is over budget"""
+
+
 class Meter(object):
-    def __init__(self):
+    def __init__(self, limit):
         self.n = 0
+        self.limit = limit
 
     def __call__(self, frame, event, arg):
         if event == "call" or event == "c_call":
             self.n += 1
+            if self.n > self.limit:
+                raise BudgetExceeded()
+
+
+def _alarm(signum, frame):
+    raise BudgetExceeded()
+
+
+WATCHDOG_S = 10.0
 
 
 def type_tree_ok(v, depth=0):
@@ -78,15 +93,19 @@ def safe_repr(x):
 def probe(data, fn=None, mem=False):
     """run the decoder on data; returns (class, violation-or-None)"""
     fn = fn or Serializable.loadb
-    meter = Meter()
+    limit = CALLS_PER_BYTE * len(data) + CALLS_BASE
+    meter = Meter(limit)
     peak = 0
     if mem:
         tracemalloc.start()
+    signal.setitimer(signal.ITIMER_REAL, WATCHDOG_S)  # backstop for loops that make no calls at all
     sys.setprofile(meter)
     try:
         try:
             v = fn(data)
             out = ("value", v)
+        except BudgetExceeded:
+            out = ("aborted", None)
         except MemoryError as e:
             out = ("base-exception", e)
         except Exception as e:
@@ -95,13 +114,13 @@ def probe(data, fn=None, mem=False):
             out = ("base-exception", e)
     finally:
         sys.setprofile(None)
+        signal.setitimer(signal.ITIMER_REAL, 0)
         if mem:
             peak = tracemalloc.get_traced_memory()[1]
             tracemalloc.stop()
-    limit = CALLS_PER_BYTE * len(data) + CALLS_BASE
-    if meter.n > limit:
-        return "over-budget", ("work-bound", "decoder executed more than %d*len+%d calls" % (CALLS_PER_BYTE, CALLS_BASE),
-                               "%d calls for %d input bytes (limit %d)" % (meter.n, len(data), limit)), meter.n
+    if meter.n > limit or out[0] == "aborted":
+        return "over-budget", ("work-bound", "decoder executed more than %d*len+%d calls (or ran past the %.0f s watchdog)" % (CALLS_PER_BYTE, CALLS_BASE, WATCHDOG_S),
+                               "aborted after %d calls for %d input bytes (limit %d)" % (meter.n, len(data), limit)), meter.n
     if mem and peak > MEM_PER_BYTE * len(data) + MEM_BASE:
         return "over-memory", ("memory-bound", "decoder allocated more than %d*len+%d bytes" % (MEM_PER_BYTE, MEM_BASE),
                                "peak %d bytes for %d input bytes" % (peak, len(data))), meter.n
@@ -254,6 +273,11 @@ def crafted():
     for nf in (-1, 0, 2, 4, 2 ** 31 - 1):
         out.append(("class1-fields%d" % nf, H(c13.C13One.type_id) + (i8(nf) if abs(nf) < 128 else i32(nf)) + H(15) * 6))
         out.append(("class3-fields%d" % nf, H(c13.C13Three.type_id) + (i8(nf) if abs(nf) < 128 else i32(nf)) + H(15) * 6))
+    for nf, enc_nf in ((300000, i32(300000)), (2 ** 31 - 1, i32(2 ** 31 - 1)), (2 ** 62, i64(2 ** 62))):
+        # huge field count followed by well-formed values for all real fields, then end of input
+        out.append(("class1-fields%d-all-real-fields-present" % nf, H(c13.C13One.type_id) + enc_nf + H(15)))
+        out.append(("class3-fields%d-all-real-fields-present" % nf, H(c13.C13Three.type_id) + enc_nf + H(15) * 3))
+        out.append(("class0-fields%d" % nf, H(c13.C13Empty.type_id) + enc_nf))
     out.append(("class-fields-is-str", H(c13.C13One.type_id) + H(13) + i8(1) + b"a"))
     out.append(("class-fields-is-seq", H(c13.C13One.type_id) + H(16) + i8(0)))
     out.append(("map-dup-keys", H(17) + i8(3) + (i8(1) + H(15)) * 3))
@@ -282,6 +306,7 @@ def work_init(tier):
     _HS = handshake_corpus()
     _CRAFT = crafted()
     sys.setrecursionlimit(1000)
+    signal.signal(signal.SIGALRM, _alarm)
 
 
 def fold(acc, cls, bad, wit):
